@@ -24,3 +24,5 @@ pub mod c20_window;
 pub mod c11_rms;
 #[cfg(all(kani, feature = "c11n"))]
 pub mod c11_nostd;
+#[cfg(all(kani, feature = "c17"))]
+pub mod c17_osc;
